@@ -21,17 +21,22 @@ namespace {
   struct UserExc10 {
     int code;
   };
+  // a C++ class the script obtains from a registered factory and throws itself; its NAME may be registered with the
+  // engine before the script runs or only between two calls of the same (already evaluated) function
+  struct AppExc10 {
+    int code;
+  };
 
-  constexpr int N_KINDS = 20;
-  const char *kind_names[N_KINDS] = {"script_int", "script_string", "script_object", "script_runtime_error", "failed_dispatch",
+  constexpr int N_KINDS = 21; // enumerated kinds; kind 21 exists for the known-finding replay only
+  const char *kind_names[N_KINDS + 1] = {"script_int", "script_string", "script_object", "script_runtime_error", "failed_dispatch",
                                      "cpp_runtime_error", "cpp_out_of_range", "cpp_logic_error", "cpp_user_class", "cpp_int",
                                      "script_bool", "script_double", "script_bool_expression",
-                                     "nested_eval_failed_dispatch", "nested_eval_parse_error", "nested_eval_script_int", "guard_throws", "all_guards_reject", "parsed_tree_failed_dispatch", "parsed_tree_script_int"};
+                                     "nested_eval_failed_dispatch", "nested_eval_parse_error", "nested_eval_script_int", "guard_throws", "all_guards_reject", "parsed_tree_failed_dispatch", "parsed_tree_script_int", "script_thrown_cpp_object", "cpp_bad_boxed_cast_from_body"};
   // dynamic type of the thrown value, "" = not representable in script (bypasses catch clauses)
-  const char *kind_type[N_KINDS] = {"int", "string", "MyExc", "runtime_error", "eval_error", "runtime_error", "out_of_range", "logic_error", "", "", "bool", "double", "bool",
-                                    "eval_error", "eval_error", "int", "int", "eval_error", "eval_error", "int"};
-  const char *catch_types[] = {"", "int", "string", "MyExc", "OtherExc", "runtime_error", "out_of_range", "logic_error", "exception", "eval_error", "bool", "double", "-"};
-  constexpr int N_CATCH_TYPES = 13; // "" = catch (e), "-" = catch without a variable
+  const char *kind_type[N_KINDS + 1] = {"int", "string", "MyExc", "runtime_error", "eval_error", "runtime_error", "out_of_range", "logic_error", "", "", "bool", "double", "bool",
+                                    "eval_error", "eval_error", "int", "int", "eval_error", "eval_error", "int", "AppExc", "exception"};
+  const char *catch_types[] = {"", "int", "string", "MyExc", "OtherExc", "runtime_error", "out_of_range", "logic_error", "exception", "eval_error", "bool", "double", "-", "AppExc"};
+  constexpr int N_CATCH_TYPES = 14; // "" = catch (e), "-" = catch without a variable
 
   bool derives(const std::string &dyn, const std::string &base) {
     if (dyn == base) return true;
@@ -117,7 +122,7 @@ namespace {
       }
       if (k < 8) {
         j["k"] = J("call");
-        j["frame"] = J(int(rng.below(10)));
+        j["frame"] = J(int(rng.below(11)));
         j["body"] = body(d - 1, false);
         return j;
       }
@@ -151,6 +156,8 @@ namespace {
       case 17: return "all_guards_reject_fn(1);";
       case 18: return "eval(parse(\"undefined_function_zzz()\"));";
       case 19: return "eval(parse(\"throw(6)\"));";
+      case 20: return "throw(make_app(7));";
+      case 21: return "cb(21);";
       default: return "cb(" + std::to_string(kind) + ");";
       }
     }
@@ -218,6 +225,12 @@ namespace {
           prelude += "def " + f + "(x) : x == 0 { t(9000); }\ndef " + f + "(x) : x == 1 { " + b + "}\n";
           return f + "(1);";
         }
+        case 10: {
+          // the body runs inside the GUARD of a function: whatever is thrown there belongs to the caller like anything else
+          const std::string g = n("gb");
+          prelude += "def " + g + "() { " + b + "return true }\ndef " + g + "f(x) : " + g + "() { }\n";
+          return g + "f(1);";
+        }
         default: {
           // overloads of other arities and of a non-matching parameter type come first
           const std::string f = n("a");
@@ -256,21 +269,23 @@ namespace {
     int site, kind;
     std::vector<int> trace;
     std::map<std::string, int64_t> probes;
+    bool app_known = true;   // the name AppExc is registered with the engine
     std::vector<Exc> caught; // exceptions whose catch clause is currently running (innermost last)
     Exc primary() const {
       Exc e;
       e.active = true;
       e.type = kind_type[kind];
-      static const char *leave[N_KINDS] = {"Boxed_Value|i:1", "Boxed_Value|s:s", "Boxed_Value|obj:MyExc{}", "Boxed_Value|exc:St13runtime_error:x",
+      static const std::string app_leave = std::string("Boxed_Value|T:") + user_type<AppExc10>().bare_name();
+      static const char *leave[N_KINDS + 1] = {"Boxed_Value|i:1", "Boxed_Value|s:s", "Boxed_Value|obj:MyExc{}", "Boxed_Value|exc:St13runtime_error:x",
                                            "eval_error|Can not find object: undefined_function_zzz", "St13runtime_error|injected", "St12out_of_range|injected",
                                            "St11logic_error|injected", "user_class|", "int|9", "Boxed_Value|true", "Boxed_Value|d:2.5", "Boxed_Value|true",
                                            "Boxed_Value|eval_error:Can not find object: undefined_function_zzz", "Boxed_Value|eval_error:Incomplete '+' expression",
                                            "Boxed_Value|i:5", "Boxed_Value|i:3", "eval_error|Guard evaluation failed with function 'all_guards_reject_fn'",
-                                           "Boxed_Value|eval_error:Can not find object: undefined_function_zzz", "Boxed_Value|i:6"};
+                                           "Boxed_Value|eval_error:Can not find object: undefined_function_zzz", "Boxed_Value|i:6", app_leave.c_str(), "bad_boxed_cast|"};
       e.leave = leave[kind];
       // exception_specification<int, std::string, bool, double>: a script value of exactly one of these types
       // leaves eval as that C++ type
-      static const char *spec[N_KINDS] = {"int|1", "std::string|s", nullptr, nullptr, nullptr, nullptr, nullptr, nullptr, nullptr, nullptr, "bool|1", "double|2.5", "bool|1", nullptr, nullptr, "int|5", "int|3", nullptr, nullptr, "int|6"};
+      static const char *spec[N_KINDS + 1] = {"int|1", "std::string|s", nullptr, nullptr, nullptr, nullptr, nullptr, nullptr, nullptr, nullptr, "bool|1", "double|2.5", "bool|1", nullptr, nullptr, "int|5", "int|3", nullptr, nullptr, "int|6", nullptr, nullptr};
       e.leave_spec = spec[kind] ? spec[kind] : e.leave;
       return e;
     }
@@ -329,6 +344,9 @@ namespace {
           bool matched = false;
           for (size_t i = 0; i < cs.size(); ++i) {
             const std::string ty = cs[i].at("type").str();
+            if (ty == "AppExc" && !app_known) {
+              continue; // an unregistered name in a clause denotes no C++ type: the clause takes nothing (yet)
+            }
             if (ty.empty() || ty == "-" || derives(r.type, ty)) {
               matched = true;
               probes[ty == "-" ? "probe_caught_without_variable" : ty.empty() ? "probe_caught_untyped" : "probe_caught_typed"] += 1;
@@ -392,15 +410,13 @@ namespace {
     bool threw = false;
   };
 
-  One run_one(const J &nest, int site, int kind, bool spec) {
+  One run_one(const J &nest, int site, int kind, bool spec, bool late = false) {
     One res;
     Render rn{site, kind, "class MyExc { def MyExc() {} };\nclass OtherExc { def OtherExc() {} };\n"
                          "def guard_thrower() { throw(3); return true }\ndef guard_throws_fn(x) : guard_thrower() { t(9004); }\n"
                          "def all_guards_reject_fn(x) : x == 0 { t(9005); }\n"};
     const std::string main_body = rn.body(nest);
     const std::string script = rn.prelude + main_body;
-    Ref ref{site, kind};
-    Exc want = ref.body(nest);
 
     auto chai = make_engine();
     Engine &e = *chai;
@@ -413,52 +429,89 @@ namespace {
             case 6: throw std::out_of_range("injected");
             case 7: throw std::logic_error("injected");
             case 8: throw UserExc10{8};
+            case 21: throw exception::bad_boxed_cast(utility::Static_String("raised by the body of a registered function"));
             default: throw 9;
             }
           }),
           "cb");
     e.add(fun([](const std::function<void()> &f) { f(); }), "call_cpp0");
-    std::string got;
-    try {
-      if (spec) {
-        e.eval(script, exception_specification<int, std::string, bool, double>());
-      } else {
-        e.eval(script);
+    e.add(fun([](int v) { return AppExc10{v}; }), "make_app");
+    if (!late) {
+      e.add(user_type<AppExc10>(), "AppExc");
+    }
+    auto run_eval = [&](const std::string &text) -> std::string {
+      try {
+        if (spec) {
+          e.eval(text, exception_specification<int, std::string, bool, double>());
+        } else {
+          e.eval(text);
+        }
+        return "returned";
+      } catch (const UserExc10 &) {
+        return "user_class|";
+      } catch (const std::string &s) {
+        return "std::string|" + s;
+      } catch (bool b) {
+        return std::string("bool|") + (b ? "1" : "0");
+      } catch (double d) {
+        return d == 2.5 ? "double|2.5" : "double|?";
+      } catch (...) {
+        return describe_current_exception(&e);
       }
-      got = "returned";
-    } catch (const UserExc10 &) {
-      got = "user_class|";
-    } catch (const std::string &s) {
-      got = "std::string|" + s;
-    } catch (bool b) {
-      got = std::string("bool|") + (b ? "1" : "0");
-    } catch (double d) {
-      got = d == 2.5 ? "double|2.5" : "double|?";
-    } catch (...) {
-      got = describe_current_exception(&e);
-    }
-    const std::string want_out = want.active ? (spec ? want.leave_spec : want.leave) : "returned";
-    res.got_outcome = got;
-    res.threw = got != "returned";
-    std::string gt, wt;
-    for (int v : trace) {
-      gt += std::to_string(v) + " ";
-    }
-    for (int v : ref.trace) {
-      wt += std::to_string(v) + " ";
-    }
-    if (gt != wt || got != want_out) {
-      // classify
-      if (got == "returned" && want.active) {
-        res.rule = "exception-lost";
-      } else if (gt == wt) {
-        res.rule = "exception-altered-or-spurious";
-      } else {
-        // which kind of trace difference?
-        res.rule = "handler-trace-differs";
+    };
+    auto compare = [&](Ref &ref, const Exc &want, const std::string &got, const char *label) {
+      const std::string want_out = want.active ? (spec ? want.leave_spec : want.leave) : "returned";
+      res.got_outcome += got;
+      res.threw = res.threw || got != "returned";
+      std::string gt, wt;
+      for (int v : trace) {
+        gt += std::to_string(v) + " ";
       }
-      res.detail = std::string("site ") + std::to_string(site) + " kind " + kind_names[kind] + (spec ? " with exception_specification<int,string,bool,double>" : "") + ": trace got [" + gt + "] want [" + wt
-          + "]; outcome got " + got + " want " + want_out + "; script: " + script;
+      for (int v : ref.trace) {
+        wt += std::to_string(v) + " ";
+      }
+      if ((gt != wt || got != want_out) && res.rule.empty()) {
+        if (got == "returned" && want.active) {
+          res.rule = "exception-lost";
+        } else if (gt == wt) {
+          res.rule = "exception-altered-or-spurious";
+        } else {
+          res.rule = "handler-trace-differs";
+        }
+        res.detail = std::string("site ") + std::to_string(site) + " kind " + kind_names[kind] + (spec ? " with exception_specification<int,string,bool,double>" : "") + label + ": trace got [" + gt
+            + "] want [" + wt + "]; outcome got " + got + " want " + want_out + "; script: " + script;
+      }
+    };
+    if (!late) {
+      Ref ref{site, kind};
+      Exc want = ref.body(nest);
+      const std::string got = run_eval(script);
+      compare(ref, want, got, "");
+      return res;
+    }
+    // the nest is the body of a function that is called twice: the first time while the name AppExc is not registered
+    // (a clause naming it takes nothing), then - the host has registered the type in between - with the clause live
+    const std::string defs = run_eval(rn.prelude + "def nest_main() { " + main_body + "}");
+    if (defs != "returned") {
+      res.rule = "exception-altered-or-spurious";
+      res.detail = "defining the nest as a function failed: " + defs + "; script: " + script;
+      return res;
+    }
+    {
+      trace.clear();
+      Ref ref{site, kind};
+      ref.app_known = false;
+      Exc want = ref.body(nest);
+      const std::string got = run_eval("nest_main();");
+      compare(ref, want, got, " (first call, type name AppExc not registered yet)");
+    }
+    e.add(user_type<AppExc10>(), "AppExc");
+    {
+      trace.clear();
+      Ref ref{site, kind};
+      Exc want = ref.body(nest);
+      const std::string got = run_eval("nest_main();");
+      compare(ref, want, got, " (second call of the same function, after the host registered the type name AppExc)");
     }
     return res;
   }
@@ -512,8 +565,8 @@ namespace {
       const J &nest = plan.at("nest");
       uint64_t h = 0xcbf29ce484222325ULL;
       r.evals = 0;
-      auto one = [&](int site, int kind, bool spec) -> bool {
-        One o = run_one(nest, site, kind, spec);
+      auto one = [&](int site, int kind, bool spec, bool late = false) -> bool {
+        One o = run_one(nest, site, kind, spec, late);
         ++r.evals;
         h = fnv1a(o.got_outcome, h) * 31 + uint64_t(site) * 7 + uint64_t(kind);
         if (o.threw) {
@@ -526,6 +579,7 @@ namespace {
           only["site"] = J(site);
           only["kind"] = J(kind);
           only["spec"] = J(spec);
+          only["late"] = J(late);
           r.plan_patch = J::object();
           r.plan_patch["only"] = only;
           return false;
@@ -534,7 +588,7 @@ namespace {
       };
       if (plan.has("only")) {
         const J &o = plan.at("only");
-        one(int(o.at("site").num()), int(o.at("kind").num()) % N_KINDS, o.at("spec").truthy());
+        one(int(o.at("site").num()), int(o.at("kind").num()) % (N_KINDS + 1), o.at("spec").truthy(), o.has("late") && o.at("late").truthy());
         r.event_hash = h;
         r.nontrivial = true;
         r.distinct_key = h;
@@ -559,11 +613,16 @@ namespace {
       for (size_t i = 0; ok && i < leaves.size(); ++i) {
         for (int kind = 0; ok && kind < N_KINDS; ++kind) {
           for (int spec = 0; ok && spec < 2; ++spec) {
-            if (spec == 1 && ((kind > 2 && kind < 10) || kind == 13 || kind == 14 || kind == 17 || kind == 18)) {
+            if (spec == 1 && ((kind > 2 && kind < 10) || kind == 13 || kind == 14 || kind == 17 || kind == 18 || kind == 20)) {
               continue; // the specification only concerns script-thrown values
             }
             ok = one(leaves[i], kind, spec != 0);
             ++r.distinct_extra;
+            if (ok && kind == 20 && spec == 0) {
+              ok = one(leaves[i], kind, false, true);
+              ++r.distinct_extra;
+              r.counters["probe_type_name_registered_between_two_calls"] += 1;
+            }
           }
         }
       }
